@@ -7,7 +7,7 @@ neu = glob.glob(os.path.join(root, "mutants", "n*.patch"))
 agent = sum(1 for p in neu if "independent sub-agent" in open(p, errors="replace").readline())
 own = len(neu) - agent
 seeds = [d for d in glob.glob(os.path.join(root, "seeded", "*")) if os.path.isdir(d)]
-rounds = sorted({json.load(open(os.path.join(d, "meta.json"))).get("round", "?") for d in seeds if os.path.exists(os.path.join(d, "meta.json"))})
+rounds = sorted({json.load(open(os.path.join(d, "meta.json"))).get("round", "a") for d in seeds if os.path.exists(os.path.join(d, "meta.json"))} - {"?"})
 line = ("/verif/mutants/, seeded/   validation corpus (data): %d mutants + %d neutral refactors of mine + %d neutral refactors and %d breaking\n"
         "                           changes from independent sub-agents (seed rounds %s-%s, neutral rounds one to eighteen)\n" % (mut, own, agent, len(seeds), rounds[0], rounds[-1]))
 p = os.path.join(root, "DESIGN.md")
